@@ -324,7 +324,17 @@ struct Runner {
 		std::cout << seqid << ":" << idx << " " << name << " " << obs << " " << (target >= 0 ? dump(regs[target]) : std::string("-")) << "\n";
 		if (oracle) {
 			if (obs != oobs) mismatch(line, "result", oobs, obs);
-			if (target >= 0) { std::string a = dump(regs[target]), b = dumpO(oregs[target]); if (a != b) mismatch(line, "contents-after", b, a); }
+			if (target >= 0) {
+				std::string a = dump(regs[target]), b = dumpO(oregs[target]);
+				if (a != b) {
+					mismatch(line, "contents-after", b, a);
+					// re-synchronise the oracle with the real container so that every reported mismatch is a
+					// first divergence and not a consequence of an earlier one
+					OState o(NP);
+					for (size_t p = 0; p < NP; p++) { o[p].resize(regs[target].size()); for (size_t i = 0; i < regs[target].size(); i++) o[p][i] = regs[target].get((Plane)p, i); }
+					oregs[target] = o;
+				}
+			}
 		}
 		idx++;
 	}
